@@ -208,6 +208,21 @@ def cases(tier):
                         yield {'fam': 'flat', 'handlers': names, 'br': br,
                                'hr': hr, 'else': els,
                                'syntax': SYNTAXES[idx % 3]}
+    # exceptions with two bases, and two different classes of one name
+    # raised in successive renders of the same compiled template
+    mi_h = [['HA'], ['HB'], ['HX'], ['HC'], ['HM'], ['HA', 'HC'], []]
+    for k in (1, 2):
+        for hs in itertools.product(range(len(mi_h)), repeat=k):
+            names = [mi_h[i] for i in hs]
+            if sum(1 for n in names if not n) > 1:
+                continue
+            idx += 1
+            yield {'fam': 'flat', 'handlers': names, 'br': 'HM', 'hr': None,
+                   'else': None, 'syntax': SYNTAXES[idx % 3]}
+            for order in (['HB', 'HB~'], ['HB~', 'HB'], ['HB', 'HB~', 'HB']):
+                idx += 1
+                yield {'fam': 'samename', 'handlers': names, 'order': order,
+                       'syntax': SYNTAXES[idx % 3]}
     # finally
     for ba in [None, 'return'] + CLS:
         for fa in [None, 'return'] + CLS:
@@ -252,10 +267,48 @@ def namespace(rv=0):
           'rv': RVALS[rv]}
     for i in range(12):
         ns['p%d' % i] = ['probe', i, ['lit', '']]
-    for c in CLS:
+    for c in CLS + ['HM']:
         ns['raise' + c] = ['raiser', 'r' + c, c, 'msg-' + c]
         ns[c + 'c'] = ['exc', c]
     return ns
+
+
+def run_samename(res, case):
+    """one compiled template, rendered with callables raising different
+    classes that share a name: every render is judged on its own"""
+    from .. import ast
+    from .. import refsem
+    from ..probes import World
+    node = flat_try('HV', case['handlers'], None, None)
+    nodes = [T('<'), node, T('>')] + AFTER
+    src = ast.to_source(nodes, case['syntax'])
+    t = ast.template_class(case['syntax'])(src)
+    res.nontrivial = True
+    res.traces = len(case['order'])
+    res.states = res.transitions = len(case['order'])
+    for step, cls in enumerate(case['order']):
+        ns = namespace()
+        ns['raiseHV'] = ['raiser', 'rHV', cls, 'msg']
+        obs = []
+        for mode in ('impl', 'ref'):
+            w = World(mode, case['syntax'])
+            built = w.build_ns(ns)
+            try:
+                if mode == 'impl':
+                    r = t(**built)
+                else:
+                    r = refsem.Interp().call_top(nodes, kw=built)
+                o = ['ok', r]
+            except Exception as e:
+                o = ['exc', type(e).__name__, refsem.exception_text(e)]
+            obs.append((o, w.log))
+        if obs[0] != obs[1]:
+            res.violate('same-name-classes', 'samename:%s' % (
+                'first' if step == 0 else 'later-render'),
+                {'source': src, 'step': step, 'raised': cls,
+                 'impl': obs[0], 'ref': obs[1]})
+            break
+    res.outcome = 'samename'
 
 
 def build(case):
@@ -305,6 +358,9 @@ def build(case):
 
 def run(case):
     res = Res()
+    if case['fam'] == 'samename':
+        run_samename(res, case)
+        return res
     built = build(case)
     if built is None:
         res.outcome = 'not-expressible'
